@@ -76,6 +76,7 @@ type Result struct {
 	Sample     interface{}            `json:"sample,omitempty"`
 	Extra      map[string]interface{} `json:"extra,omitempty"`
 	Fatal      bool                   `json:"fatal,omitempty"`
+	Observations []Violation          `json:"observations,omitempty"`
 	died       bool
 	stderr     string
 }
@@ -622,6 +623,24 @@ func sweep(bin string, def *checkDef, check, tier string, baseSeed uint64, cfg t
 						stop = true
 					}
 				default:
+					// non-fatal observations: known findings are reported as such,
+					// anything else is a violation like any other
+					for oi := range r.Observations {
+						o := r.Observations[oi]
+						if f := matchFinding(findings, def.property, &o); f != nil {
+							if _, ok := known[f.What]; !ok {
+								kr := *r
+								kr.Violation = &o
+								known[f.What] = &kr
+							}
+						} else if firstViol == nil {
+							vr := *r
+							vr.Violation = &o
+							firstViol = &vr
+							a.violations++
+							stop = true
+						}
+					}
 					a.add(r)
 					if dumpF != nil {
 						fmt.Fprintf(dumpF, "%d %d %d %d\n", i, r.Seed, r.Stats.SchedSig, r.Stats.Windows)
